@@ -123,6 +123,8 @@ REGRESSIONS = [
     ("fail-block-statement", "fn t() {\n  {\n    fail\n  }\n  let x = 1\n  x\n}\n"),
     ("fail-pipe-stage", "fn t() {\n  (fail @\"boom\") |> f\n}\n"),
     ("todo-pipe-stage", "fn t() {\n  x |> (todo @\"wip\")\n}\n"),
+    ("comment-in-constructor-pattern", "fn t(x) {\n  when x is {\n    Foo {\n      // c\n      a,\n      b,\n    } -> a + b\n  }\n}\n"),
+    ("named-discard-tail", "fn t(x) {\n  when x is {\n    [a, .._rest] -> a\n    [b, ..] -> b\n    _ -> 0\n  }\n}\n"),
 ]
 
 
